@@ -250,9 +250,15 @@ func probe() (syncOK, singleOK bool) {
 
 func run(c *eng.Ctx) error {
 	syncOK, singleOK := probe()
-	L := c.N(4, 6)   // family A: runs per history
-	LB := c.N(2, 3)  // family B: runs per history
-	nBcfg := 4
+	L := c.N(4, 5)  // family A: runs per history (all 9 configurations)
+	L2 := 6         // family A, thorough only: longer histories for the configurations with Fails+Passes >= 5
+	deep := [][2]int{{2, 3}, {3, 2}, {3, 3}}
+	LB := c.N(2, 3) // family B: runs per history
+	bCfgs := [][2]int{{1, 1}, {1, 2}, {2, 1}, {2, 2}}
+	if !c.Quick() {
+		bCfgs = [][2]int{{1, 1}, {2, 2}}
+	}
+	nBcfg := len(bCfgs)
 	pow := func(b, e int) int {
 		r := 1
 		for ; e > 0; e-- {
@@ -261,9 +267,14 @@ func run(c *eng.Ctx) error {
 		return r
 	}
 	ch3 := choices3()
-	nA := 9 * pow(4, L)
+	nA1 := 9 * pow(4, L)
+	nA2 := 0
+	if !c.Quick() {
+		nA2 = len(deep) * pow(4, L2)
+	}
+	nA := nA1 + nA2
 	nB := nBcfg * pow(len(ch3), LB)
-	nC := c.N(250, 3000)
+	nC := c.N(250, 2000)
 	nM := c.N(15, 150)
 	nH := c.N(2, 10)
 	nSync, nSingle := c.N(2, 4), c.N(1, 2)
@@ -284,10 +295,16 @@ func run(c *eng.Ctx) error {
 		p := &plan{timeout: 10 * time.Second}
 		switch {
 		case t < nA:
-			per := pow(4, L)
-			cfg, seq := t/per, t%per
+			per, n, i := pow(4, L), L, t
+			if t >= nA1 {
+				per, n, i = pow(4, L2), L2, t-nA1
+			}
+			cfg, seq := i/per, i%per
 			p.fam, p.fails, p.passes = "A", cfg/3+1, cfg%3+1
-			for r := 0; r < L; r++ {
+			if t >= nA1 {
+				p.fails, p.passes = deep[cfg][0], deep[cfg][1]
+			}
+			for r := 0; r < n; r++ {
 				d := seq % 4
 				seq /= 4
 				p.steps = append(p.steps, mkStep(3, d))
@@ -298,11 +315,7 @@ func run(c *eng.Ctx) error {
 			per := pow(len(ch3), LB)
 			cfg, seq := i/per, i%per
 			p.fam = "B"
-			if nBcfg == 9 {
-				p.fails, p.passes = cfg/3+1, cfg%3+1
-			} else {
-				p.fails, p.passes = cfg/2+1, cfg%2+1
-			}
+			p.fails, p.passes = bCfgs[cfg][0], bCfgs[cfg][1]
 			var masks []int
 			for r := 0; r < LB; r++ {
 				ch := ch3[seq%len(ch3)]
